@@ -271,7 +271,25 @@ func c16Function(c *Ctx, r *Report, fn *ssa.Function) (int, int) {
 			continue
 		}
 		nb++
+		// transitively: a test nested under the option test is itself under the option
 		ctl := ci.controlled(a)
+		for changed := true; changed; {
+			changed = false
+			for blk := range ctl {
+				if len(blk.Instrs) == 0 {
+					continue
+				}
+				if _, isIf := blk.Instrs[len(blk.Instrs)-1].(*ssa.If); !isIf {
+					continue
+				}
+				for x := range ci.controlled(blk) {
+					if !ctl[x] {
+						ctl[x] = true
+						changed = true
+					}
+				}
+			}
+		}
 		key0 := fmt.Sprintf("%s/branch#%d@%s", fname, nb, pathOf(ifi.Cond))
 		bad := ""
 		for blk := range ctl {
